@@ -264,6 +264,8 @@ func corpus() []interface{} {
 		ins = append(ins, deviate("tls", s, "accept", find("identity-no-key")))
 		// C08-N1 regression (TlsProofs.previous_variant_resumption_refuted; fixed in /repo): ticket alone, no certificate
 		ins = append(ins, deviate("tls", s, "accept", find("resume-same-no-certificate")))
+		// shared-verifier witness (TlsProofs.shared_verifier_refuted; /repo keeps the verifier per dial)
+		ins = append(ins, concInput(s, "1.3", concCases[0]))
 		// honest handshakes
 		for _, r := range roles {
 			ins = append(ins, base("unit", s, r, kA))
@@ -374,8 +376,49 @@ func mutate(rng *rand.Rand, in *input, n int) {
 	}
 }
 
+// Two overlapping dials of the honest host (level conc): it dials key Expected
+// (observed link) and key A; the peer holds A (and B), answers the dial to A
+// honestly and presents the certificate below on the first link.
+type concCase struct {
+	name     string
+	expected int
+	apply    func(c *certSpec)
+}
+
+var concCases = []concCase{
+	// the proof made for the OTHER dial (key A, the other dial's nonce) on the link dialled for E
+	{"other-dial-proof", kE, func(c *certSpec) { c.Sig.Nonce = "other" }},
+	{"other-dial-proof-old-style", kE, func(c *certSpec) { c.Sig.Nonce = "other"; c.URIs = nil }},
+	{"other-dial-proof-uri-names-target", kE, func(c *certSpec) { c.Sig.Nonce = "other"; c.URIs = []uriSpec{uriOf(kE)} }},
+	{"other-dial-proof-uri-names-both", kE, func(c *certSpec) { c.Sig.Nonce = "other"; c.URIs = []uriSpec{uriOf(kA), uriOf(kE)} }},
+	// the peer's own key over THIS dial's nonce
+	{"own-key-this-nonce", kE, func(c *certSpec) {}},
+	// right key, but the proof is over the other dial's nonce
+	{"target-held-proof-over-other-nonce", kA, func(c *certSpec) { c.Sig.Nonce = "other" }},
+	// both dials answered honestly (two different held keys): both links come up
+	{"honest-both", kB, func(c *certSpec) { *c = *honestSpec(kB, 0) }},
+	{"honest-both-proof-over-other-nonce", kB, func(c *certSpec) { *c = *honestSpec(kB, 0); c.Sig.Nonce = "other" }},
+}
+
+func concInput(suite, ver string, cc concCase) input {
+	in := base("conc", suite, "dial", kA)
+	cc.apply(in.Chain[0].Cert)
+	in.Expected = cc.expected
+	in.Other = kA
+	in.TLSVer = ver
+	in.Class = "conc:" + cc.name
+	return in
+}
+
 func generate(rng *rand.Rand, tier string) []interface{} {
 	var ins []interface{}
+	for _, s := range suiteNames {
+		for _, v := range []string{"1.3", "1.2"} {
+			for _, cc := range concCases {
+				ins = append(ins, concInput(s, v, cc))
+			}
+		}
+	}
 	// 1. every single deviation x suite x role, on the verifier and over real handshakes
 	for _, s := range suiteNames {
 		for _, r := range roles {
